@@ -205,6 +205,16 @@ def parse_spec(path):
     return u
 
 
+def missing_helpers(compile_errors):
+    """names of functions / methods rustc could not resolve in a generated unit (candidates for R21 inlining)"""
+    names = set()
+    for e in compile_errors or []:
+        for rx in (r"cannot find function `(\w+)`", r"no method named `(\w+)` found", r"no function or associated item named `(\w+)`"):
+            for m in re.finditer(rx, e):
+                names.add(m.group(1))
+    return names
+
+
 # --------------------------------------------------------------------------- extraction
 
 _extract_cache = {}
@@ -212,7 +222,7 @@ _extract_cache = {}
 
 def extract(relfile):
     full = os.path.join(REPO, relfile)
-    key = (full, os.path.getmtime(full), os.path.getsize(full))
+    key = (full, os.path.getmtime(full), os.path.getsize(full), os.environ.get("VX_INLINE", ""))
     if key in _extract_cache:
         return _extract_cache[key]
     if not os.path.exists(EXTRACT):
